@@ -37,7 +37,7 @@ def build_file(case):
     from cfinterface.components.defaultregister import DefaultRegister
     from cfinterface.data.registerdata import RegisterData
 
-    RF, classes = fsup.mk_register_file(case["regs"])
+    RF, classes = fsup.mk_register_file(case["regs"], io=case.get("io"))
     data = RegisterData(DefaultRegister(data=""))
     for e in case["elems"]:
         data.append(fsup.dec_relem(e, classes))
@@ -47,12 +47,10 @@ def build_file(case):
 def run_impl(case):
     try:
         RF, classes, f = build_file(case)
-        buf = StringIO()
-        f.write(buf)
-        w = buf.getvalue()
+        w = fsup.write_text(f, case.get("io"))
         if case.get("shape") == "skip_empty":
             return {"written": codec.enc_str(w)}
-        f2 = RF.read(w)
+        f2 = fsup.read_text(RF, w, case.get("io"))
         cap = len(w) + 5
         return {"written": codec.enc_str(w), "reread": [fsup.enc_relem(e, classes) for e in fsup.capped(f2.data, cap)], "file_eq": bool(f == f2) and bool(f2 == f) and not (f != f2)}
     except Exception as e:
@@ -150,7 +148,7 @@ def canonical_value(rng, fd):
         if r < 0.25:
             return {"s": []}
         w = rng.randrange(1, fd["size"] + 1)
-        s = "".join(rng.choice("abcXYZ09-_. é") for _ in range(w)).strip()
+        s = "".join(rng.choice("abcXYZ09-_. é" + fsup.NON_ASCII) for _ in range(w)).strip()
         return {"s": codec.enc_str(s)}
     if k == "flt":
         if r < 0.25:
@@ -199,7 +197,8 @@ def make_regs(rng):
     return regs
 
 
-FREE_TEXT = ["# comment\n", "\n", "   \n", "free text line\n", "& 12 34\n", "#AA not at column 0? no: starts with #\n", "zz\n"]
+FREE_TEXT = ["# comment\n", "\n", "   \n", "free text line\n", "& 12 34\n", "#AA not at column 0? no: starts with #\n", "zz\n",
+             "& vazão média (m³/s)\n", "ñ\n", "* comentário não reconhecido\n"]
 
 
 def random_case(rng, with_empty=False):
@@ -227,6 +226,11 @@ def random_case(rng, with_empty=False):
     case = {"regs": regs, "elems": elems}
     if with_empty:
         case["shape"] = "skip_empty"
+    texts = [codec.dec_data(e["dflt"]) for e in elems if "dflt" in e]
+    texts += [codec.dec_str(v["s"]) for e in elems if "data" in e for v in e["data"] if isinstance(v, dict) and "s" in v]
+    io = fsup.io_of(rng, [t for t in texts if isinstance(t, str)])
+    if io:
+        case["io"] = io  # written to / read back from a path on disk, in the class's declared encoding
     return case
 
 
@@ -242,7 +246,7 @@ def corpus_cases():
 
 def chunks(tier, seed):
     ch = [{"kind": "corpus"}]
-    nrand = {"quick": 3000, "thorough": 80000}.get(tier, 10000)
+    nrand = {"quick": 3000, "thorough": 320000}.get(tier, 10000)
     per = max(1, nrand // 16)
     for i in range(16):
         ch.append({"kind": "random", "seed": seed * 1000 + i, "n": per, "empty": i % 4 == 3})
